@@ -280,6 +280,20 @@ def rule_node(ctx):
                 lim = U.num_value(cp[2])
     ctx.ob('C16.node', f'{i.fq}:user-limit', lim is not None and (lim + 1) << shift <= 1 << 31,
            f'user ids above {lim} are refused; (limit+1) << {shift} must stay inside a positive int32', i.node, mod)
+    # the advertised id range of a client (id_offset, num_ids: used for the default group ids) is the same window
+    nid = None
+    for s in walk_local(i.node):
+        if isinstance(s, ast.Assign) and norm(s.targets[0]) == 'self.num_ids':
+            nid = U.num_value(s.value)
+    ctx.ob('C16.node', f'{i.fq}:num_ids', nid == 1 << shift,
+           f'num_ids = {nid}; must be 2**{shift} = {1 << shift}, the span alloc() keeps below the client prefix: otherwise ids lie outside '
+           f'[id_offset, id_offset + num_ids) and reach the default group ids (num_ids * client + 1) of other clients', i.node, mod)
+    io = ci.methods['id_offset']
+    ctx.ob('C16.node', f'{io.fq}', full(io.node).endswith('return self.num_ids * self.user'), 'a client range starts at num_ids * user', io.node, mod)
+    srv = ctx.repo.cls('sc3.synth.server:Server')
+    dg = srv.methods['_make_default_groups']
+    ctx.ob('C16.node', f'{dg.fq}:default-group-id', 'self._node_allocator.num_ids * client_id + 1' in full(dg.node),
+           'default group of a client is the first permanent id of its window', dg.node, srv.module)
     fp = ci.methods['free_perm']
     ctx.ob('C16.node', f'{fp.fq}:mask', f'id = id & {(1 << shift) - 1}' in full(fp.node) or f'id = id & 0x{(1 << shift) - 1:08X}' in full(fp.node) or
            'id = id & 67108863' in full(fp.node), 'the same window mask strips the client prefix', fp.node, mod)
@@ -335,6 +349,8 @@ def run(ctx):
 
 
 MUTANTS = [
+    dict(rule='C16.node', name='(fix reverted) num_ids is half the id window', file='sc3/synth/_engine.py',
+         old="        self.num_ids = 0x04000000  # 2 ** 26, the id window of a user (see mask).", new="        self.num_ids = (2 ** 32 // 2 - 1) // 64"),
     dict(rule='C16.xlate', name='_find_previous forgets the offset', file='sc3/synth/_engine.py',
          old="            if self._array[i - self.addr_offset] is not None:\n                return self._array[i - self.addr_offset]", new="            if self._array[i] is not None:\n                return self._array[i]"),
     dict(rule='C16.xlate', name='_split stores at absolute address', file='sc3/synth/_engine.py',
